@@ -13,6 +13,7 @@ def register(db):
     register_find_by_namespace(db)
     register_wrapper_child(db)
     register_wildcard_child(db)
+    register_generic_value(db)
     P = ["C09"]
     db.add(Contract(
         "xsdata.formats.dataclass.parsers.utils:ParserUtils.normalize_content",
@@ -352,4 +353,23 @@ def register_wildcard_child(db):
                   "result.ns_map is ns_map and result.attrs is attrs and result.position == position"),
                  ("same-wildcard-field-and-factory", "result.var is self.var and result.factory is self.factory")],
         raises={}, properties=["C09"],
+    ))
+
+
+def register_generic_value(db):
+    """ElementNode.prepare_generic_value: a primitive child of a mixed-content / wildcard field is wrapped in a generic
+    element whose text is the value's canonical lexical form - serialized WITHOUT the document's prefix map, so that a
+    QName value reads `{uri}local` whatever prefixes the document used (C09: the object does not depend on prefixes)."""
+    from .c10_strictness import element_node, NODES
+    EL = f"{NODES}.element:ElementNode"
+    SER = "ConverterFactory.serialize"
+    db.add(Contract(
+        f"{EL}.prepare_generic_value", variant="canonical-text", params={"self": element_node, "qname": "str|None", "value": "opaque:Any"},
+        requires=["not uf('isinstance_Any_list', 'bool', value)"],
+        ensures=[("a-model-or-an-unnamed-value-is-kept",
+                  "implies(qname is None or len(qname) == 0 or uf('ClassType.is_model', 'bool', self.context.class_type, value), result is value)"),
+                 ("a-named-primitive-is-serialized-without-the-document-prefixes",
+                  f"implies(qname is not None and len(qname) > 0 and not uf('ClassType.is_model', 'bool', self.context.class_type, value), "
+                  f"called('{SER}') == 1 and call_arg('{SER}', 1) is value and call_kwarg_names('{SER}') == ())")],
+        raises={"ConverterError": True}, properties=["C09"],
     ))
